@@ -50,6 +50,7 @@ type natEntry struct {
 
 // natUplinkGeneric is used for passing information about relay uplink to the relay goroutine.
 type natUplinkGeneric struct {
+	state          *atomic.Pointer[net.UDPConn]
 	clientName     string
 	clientAddrPort netip.AddrPort
 	natConn        *net.UDPConn
@@ -373,6 +374,7 @@ func (s *UDPNATRelay) recvFromServerConnGeneric(ctx context.Context, lnc *udpRel
 
 				s.wg.Go(func() {
 					s.relayServerConnToNatConnGeneric(ctx, natUplinkGeneric{
+						state:          &entry.state,
 						clientName:     clientInfo.Name,
 						clientAddrPort: clientAddrPort,
 						natConn:        natConn,
@@ -473,6 +475,13 @@ func (s *UDPNATRelay) relayServerConnToNatConnGeneric(ctx context.Context, uplin
 				zap.Duration("natTimeout", uplink.natTimeout),
 				zap.Error(err),
 			)
+		}
+
+		// Stop moves the deadline into the past to end the session. If that happened just
+		// before the deadline was pushed out again above, redo it, or the downlink
+		// goroutine would keep the service from stopping for a whole NAT timeout.
+		if uplink.state.Load() != uplink.natConn {
+			_ = uplink.natConn.SetReadDeadline(conn.ALongTimeAgo)
 		}
 
 		s.putQueuedPacket(queuedPacket)
